@@ -1216,7 +1216,7 @@ def run(ctx):
             # the lookup object watches the looked-up specifications already
             for mut in ('register', 'unregister', 'subscribe', 'unsubscribe', 'register-new-provided'):
                 for e in ('lookup', 'subscriptions', 'queryAdapter'):
-                    if quick:
+                    if quick or not (mut in ('register', 'unregister') and e in ('lookup', 'subscriptions')):
                         add(flavour + '+watching', mut, [e], 1)
                     else:
                         add(flavour + '+watching', mut, [e], 2, True)
@@ -1229,7 +1229,8 @@ def run(ctx):
                 # (scheduling points inside ro.py as well) while a registry
                 # above is re-based
                 for e in ('lookup', 'subscriptions'):
-                    add('verifying+stale-ro', 'rebase-base-registry', [e], 1 if quick else 2, not quick)
+                    deep = not quick and e == 'lookup'
+                    add('verifying+stale-ro', 'rebase-base-registry', [e], 2 if deep else 1, deep)
                     add('verifying+stale-ro', 'rebase-registry', [e], 1, False)
             if quick:
                 if flavour == 'adapter':
